@@ -335,7 +335,7 @@ def main(prop, tier, seed, argv):
             raise C.Infra("vacuous run: %d vector cases, %d quantity cases replayed" % (s_ops["cases"], s_q["cases"]))
         if dist_ops - sizes["resources"] != s_ops["cases"] or 2 * dist_q != s_q["cases"]:
             raise C.Infra("case lines lost: TLC reports %d/%d distinct states, harness replayed %d/%d cases" % (dist_ops, dist_q, s_ops["cases"], s_q["cases"]))
-        expected_ops = 28
+        expected_ops = 30
         if len(s_ops["byOp"]) != expected_ops or min(s_ops["byOp"].values()) == 0:
             raise C.Infra("operators exercised: %s" % sorted(s_ops["byOp"]))
         if s_q["quantityAccepted"] == 0 or s_q["quantityUnrepresentable"] == 0 or s_ops["saturatingCases"] == 0:
